@@ -101,8 +101,8 @@ CHECKS = {
     "C13": C("other", "Every assembler cell carries `terminates` (loop bound of the real while loop + native watchdog) and `no-internal-error` "
              "(only ParseError / TranslationError may leave Program.process) obligations for all symbolic values; CLI cells carry "
              "exit-status / no-output-file obligations.  Arbitrary texts are covered by the form / invalid-form families and, BOUNDED, by "
-             "asm_text (7,320 statement texts: label field x mnemonic x operand fragment, exception class and code site in the "
-             "signature), not by an unbounded string theory (see DESIGN 12).", "DESIGN 4 C13, 12"),
+             "asm_text (3,660 statement texts in the quick tier, 7,320 in the thorough tier: label field x mnemonic x operand fragment; the exact "
+             "inputs that fail on the tree are listed per root cause), not by an unbounded string theory (see DESIGN 12).", "DESIGN 4 C13, 12"),
     "C14": C("proof", "Function-by-function contracts on the real cassette writer, unbounded in data length and contents (z3 Seq theory): "
              "append_data_blocks against the recursive format definition (loop invariant with ghost split, recursion through its own "
              "contract, decreases obligation), append_name, append_header, append_eof, append_blank/leader, add_file, add_files.  "
